@@ -36,7 +36,7 @@ ASSUMPTIONS = [
 ]
 RULE = ('every schedule over {D deliver, R start receive, Y run ready queue, C cancel pending receive, S send} of length <= 4 (quick) / <= 6 (thorough), every schedule over '
         '{D,R,Y} of length 5..6 (quick) / 7..8 (thorough), each followed by a deterministic drain (deliver all, receive all) or by close(); x capacities 0..4 x k = 1..2 (quick) / 1..3 (thorough) '
-        'messages x with/without a trailing disconnect; plus random schedules of 5..40 steps with k <= 8. The real falcon.asgi.ws.WebSocket (source mode) is driven; '
+        'messages x with/without a trailing disconnect; plus, for capacities 1..4, 'fill the queue and park the pump' followed by every tail of <= 2 steps and drain/close; plus random schedules of 5..40 steps with k <= 8. The real falcon.asgi.ws.WebSocket (source mode) is driven; '
         'non-trivial = at least one message was delivered and received; distinct = distinct (capacity, k, disconnect, schedule, ending)')
 PARTIAL = ('the theorems are about the atomic-segment model; that asyncio runs the real coroutines segment by segment as modelled is established by trace inclusion on every generated '
            'schedule (exhaustive to the stated bounds), not by proof; liveness is stated fairness-free (no_lost_wakeup + resolved_receive_enabled), unbuffered mode is oracle-only')
@@ -347,6 +347,22 @@ def run(ctx):
                             j += 1
                             judge(cap, k, disc, sched, ending, await run_one(cap, k, disc, sched, ending))
         ctx.count('exhaustive_runs', j)
+        # directed: fill the queue (capacity + 1 deliveries: queue full, pump parked holding one), then every tail of <= 2 steps, then drain / close
+        import itertools
+        d = 0
+        for cap in (1, 2, 3, 4):
+            base = 'Y' + 'DY' * (cap + 1)
+            for l in (0, 1, 2):
+                for tail in itertools.product('DRYCS', repeat=l):
+                    d += 1
+                    if d % nsh != i:
+                        continue
+                    for k in (cap + 1, cap + 2):
+                        for disc in (False, True):
+                            for ending in ('drain', 'close'):
+                                sched = base + ''.join(tail)
+                                judge(cap, k, disc, sched, ending, await run_one(cap, k, disc, sched, ending))
+                                ctx.count('directed_full_queue_runs')
         for _ in range(ctx.n(4000, 60000)):
             cap = rnd.choice([0, 1, 1, 2, 3, 4]); k = rnd.randint(1, 8); disc = rnd.random() < 0.5
             sched = ''.join(rnd.choice('DDRRYYYCS') for _ in range(rnd.randint(5, 40)))
